@@ -98,6 +98,12 @@ fn atoms(rng: &mut Rng, o: Opts, min: usize, max: usize, extra: &[&str]) -> Stri
 
 pub fn scheme(rng: &mut Rng) -> String {
     const FIXED: &[&str] = &["http", "s", "a", "A", "urn", "x-y.z+1", "data", "file", "h2"];
+    // well-known scheme words as proper prefixes of, suffixes of, or one character away from the scheme
+    // (fast paths for common schemes must still look at the whole scheme)
+    const NEAR_KNOWN: &[&str] = &["https", "HTTPS", "Https", "httpsx", "https+insecure", "https.", "https-", "https0", "httpx", "http+unix", "htt", "ttp", "xhttp", "ws", "wss", "wssx", "ftp", "ftps", "sftp", "files", "file+x", "datax", "dat", "urnx", "ur", "mailto", "mailtox", "tel", "about", "blob", "javascript", "did", "ipfs", "git+ssh", "view-source"];
+    if rng.chance(1, 8) {
+        return rng.pick(NEAR_KNOWN).to_string();
+    }
     if rng.chance(3, 4) {
         return rng.pick(FIXED).to_string();
     }
